@@ -140,6 +140,16 @@ def inspection_clean(prog):
         return True     # let the run itself surface it (C15)
 
 
+def route_identity(world, route):
+    """A schedule-independent name for a route: the transitions that opened it (route *numbers*
+    are handed out in completion order and differ between twins that share a scenario)."""
+    try:
+        det = world.snap["state"]["routes"][route]
+    except Exception:  # noqa
+        return None
+    return canon(det) if det else None
+
+
 class Scheduler(object):
     def __init__(self, seed, profile, sched_seed=None):
         self.seed = seed
@@ -211,8 +221,7 @@ class Scheduler(object):
         scenario must fix the outcome per task (C08)."""
         if self.profile.get("outcome_per_task"):
             return None
-        seen = sorted(self.world.ledger.routes_seen.get(x.task, ()))
-        return seen.index(x.route) if x.route in seen else 0
+        return route_identity(self.world, x.route)
 
     def latency(self, task, visit, attempt, item):
         KS = self.KS
